@@ -191,6 +191,10 @@ def make_sheet(rnd, premium=False, default_bg=(255, 255, 255), rich=False, n_rul
             f.add("repeat")
         for _ in range(rnd.randrange(0, 3)):
             parts.append(rnd.choice(FILLER))
+        if rnd.random() < 0.05 and allowed("comment-in-value") and src in ("literal", "var"):
+            # a comment inside the colour value (CSS ignores it; it must survive like every other comment)
+            text_val = text_val + " /* brand colour */" if rnd.random() < 0.7 else "/* was #123 */ " + text_val
+            f.add("comment-in-value")
         parts.append(f"{cname}: {text_val}{imp}")
         if own_bg:
             bname = "background-color"
